@@ -134,8 +134,16 @@ macro_rules! ints {
     )* };
 }
 
+crate::checked_none_forms!(checked_none_i64, crypto_bigint::Int<1>, |l: &Vec<u64>| vmodel::int::<1>(l));
+crate::checked_none_forms!(checked_none_i128, crypto_bigint::Int<2>, |l: &Vec<u64>| vmodel::int::<2>(l));
+crate::checked_none_forms!(checked_none_i256, crypto_bigint::Int<4>, |l: &Vec<u64>| vmodel::int::<4>(l));
+use crate::checked_forms::mk_limbs;
+
 pub fn subchecks(_ctx: &Ctx) -> Vec<SubCheck> {
     let mut v = vec![];
     ints!(v, 30_000; 1, 2, 4, 8);
+    v.push(SubCheck::new("extra/checked-none-all-forms/I64", 60_000, checked_none_i64).tape(24));
+    v.push(SubCheck::new("extra/checked-none-all-forms/I128", 60_000, checked_none_i128).tape(24));
+    v.push(SubCheck::new("extra/checked-none-all-forms/I256", 40_000, checked_none_i256).tape(32));
     v
 }
